@@ -14,6 +14,12 @@ CLAIMED = {
         technique=TECH),
 }
 
+CLAIMED["C20"] = dict(
+    level="model_checking", design="§4 C20",
+    text="All paths of the four real LEB128 functions for every integer of magnitude < 2**63 (thorough 2**128) and, for the decoders, every byte buffer up to 10 (19) bytes incl. non-canonical encodings; z3 proves per path: denoted value, continuation bits, minimal length, exact consumption, round trip, rejection of negatives.",
+    note="Trusted: z3, the closed-form LEB128 definition in props/C20.py, the proxy engine (each path cross-checked against a concrete shim-free run). Integers beyond the bound are outside the claim.",
+    technique=TECH)
+
 NOT_APPLICABLE = {
     "C04": "property is about native execution of whole gcc/ppci-compiled programs; no x86-64 semantics model is in reach and running binaries is enumeration of concrete runs, not solver-based checking",
     "C06": "dataflow property over uninterpreted instruction semantics: a checker would be tag propagation in which a solver decides nothing",
